@@ -1,20 +1,20 @@
 (* Exhaustive sweep 1 (65 536 byte pairs, exact binary32): multiply_alpha never produces a colour
    channel above alpha.  Stated over the source-derived multiply_alpha_a / multiply_alpha_ch. *)
-From RV Require Import Model.F32 Gen.PixelTables Model.Pixel Proofs.PixelBase.
+From RV Require Import Model.F32.
+From RV Require Import Gen.PixelTables.
+From RV Require Import Model.Pixel.
+From RV Require Import Proofs.PixelBase.
 Local Open Scope Z_scope.
 
-Definition mul_valid_sweep : bool :=
-  forallb (fun a => let fa := multiply_alpha_a a in
-                    forallb (fun c => multiply_alpha_ch c fa <=? a) bytes) bytes.
-
-Lemma mul_valid_sweep_true : mul_valid_sweep = true.
+Lemma mul_valid_sweep_true :
+  sweep_let multiply_alpha_a (fun c a fa => multiply_alpha_ch c fa <=? a) = true.
 Proof. vm_compute. reflexivity. Qed.
 
 Lemma mul_alpha_le_alpha : forall c a, is_byte c -> is_byte a -> mul_alpha c a <= a.
 Proof.
   intros c a Hc Ha.
-  pose proof (sweep2 (fun c a => mul_alpha c a <=? a) mul_valid_sweep_true c a Hc Ha) as H.
-  cbv beta in H. apply Z.leb_le in H. exact H.
+  pose proof (sweep_let_spec _ _ mul_valid_sweep_true c a Hc Ha) as H.
+  cbv beta in H. apply Z.leb_le in H. unfold mul_alpha. exact H.
 Qed.
 
 (* opaque and transparent alpha: multiply is the identity on colour / yields zero *)
